@@ -20,6 +20,11 @@
     arithmetic) must satisfy the bound of a backward-stable least-squares solve,
         ||b - A x_m|| <= rho_m + SCALED_C[dtype] * eps(dtype) * cond(A) * max(||b||, ||r0||),
     not an absolute bound that would hide a squared condition number.
+(6) Scaled right-hand sides and tiny initial residuals: TLC checks on the flagged catalog cases that the optimum is
+    homogeneous in the initial residual and invariant under the shift by x0 (MC_Gmres!ScaleShift); the real code is
+    run with b' = c * r0 (c = 1e-12, 1e-15, 1e-30; float32: 1e-12, 1e-18), with x0 = e1 and b' = A x0 + c r0
+    (c = 2^-36, 2^-40, exactly representable) and with blocks that put a tiny column next to an O(1) column; every
+    column is judged relative to its own ||r0'|| against TLC's exact rho_m / ||r0||.
 (5) Larger ill-conditioned systems (n <= 60, prescribed singular values, cond 10^4 .. 10^7 in float64, 10^2 .. 10^3 in
     float32) run to m >= n: residual <= ILLCOND_C[dtype] * eps * cond * ||r0|| (projection predicate, see the assumptions)."""
 import json
@@ -639,14 +644,18 @@ def wide_multi_jobs(wjobs):
 # initial residual it was given*:
 #     ||b' - A x|| / ||r0'|| <= rho_m / ||r0|| + RHS_C * eps * (cond(A) + (||A|| ||x0'|| + ||b'||) / ||r0'||)
 # (backward-stable solve; the last term is the floor set by representing x0' + correction in the working precision).
-# Measured, in these units, over every quick and thorough case: unchanged tree max 0.34 (complex128/float64) / 0.25
-# (float32); start block normalised by clip(norm, 1e-10) (seeded change C13_D): 1e11 .. 1e15 wherever ||r0'|| < 1e-10
-# and the iterate is truncated.
-RHS_C = {"f64": 64.0, "c128": 64.0, "f32": 64.0}
+# Measured excess in these units (every quick and thorough case, both entry points, every m):
+#   variant rhs / batch (x0 = 0, b' = c * r0, c = 1e-12 .. 1e-30): unchanged tree max 13.8 (float64; the same 13.3 at
+#     c = 1: the code is scale invariant), 3.84 (complex128), 0.58 (float32); start block normalised by clip(norm, 1e-10)
+#     (seeded change C13_D): >= 4.8e14 (float64 / complex128), >= 1.5e6 (float32) at m >= Krylov dimension, where the
+#     relative residual stays at 1 instead of 0, and 1e14 / 1e5 .. 1e6 on truncated iterates       -> 256 / 256 / 32
+#   variant shift (x0 = e1, b' = A x0 + c r0, c = 2^-36, 2^-40): unchanged max 0.18; seeded >= 596 at c = 2^-40 -> 8
+RHS_C = {"f64": 256.0, "c128": 256.0, "f32": 32.0}
+SHIFT_C = 8.0
 RHS_SCALES = {"f64": (("1e-12", 1e-12), ("1e-15", 1e-15), ("1e-30", 1e-30)),
               "c128": (("1e-12", 1e-12), ("1e-15", 1e-15), ("1e-30", 1e-30)),
               "f32": (("1e-12", 1e-12), ("1e-18", 1e-18))}        # (1e-18)^2 is still a normal float32; (1e-20)^2 is not
-SHIFT_SCALES = (("2^-40", 2.0**-40), ("2^-45", 2.0**-45))       # A x0 + c r0 is exactly representable in float64
+SHIFT_SCALES = (("2^-36", 2.0**-36), ("2^-40", 2.0**-40))       # A x0 + c r0 is exactly representable in float64
 
 
 def _frac_c(z):
@@ -714,26 +723,32 @@ def rhs_unit(job, dt, bp, x0p, r0n):
     return eps * (job["cond"] + (job["anorm"] * float(np.linalg.norm(x0p)) + float(np.linalg.norm(bp.astype(np.complex128)))) / r0n)
 
 
-def observe_scaled_rhs(job, only=None):
+def observe_scaled_rhs(job, only=None, full=True):
     """One catalog system flagged hom: scaled right-hand sides and tiny initial residuals, both entry points, every m.
     Returns (violations, calls, {dtype: largest excess observed in units of eps * (...)})."""
     viol, n_eval, worst = [], 0, {}
     n = job["n"]
     Aent = job["A"]["e"]
     rho0 = math.sqrt(lsqfam.q_to_float(job["per_m"]["0"]["rho2_0"]))
-    for kind, dt, sn, c in rhs_variants(job):
+    par = sum(job["id"].encode()) % 2
+    for vi, (kind, dt, sn, c) in enumerate(rhs_variants(job)):
+        if only is None and not full and (dt == "f32" or kind == "shift") and vi % 2 != par:
+            continue                 # quick tier: one of the two float32 scales / tiny-residual scales per system
         Ad, bp, x0p, r = _rhs_problem(job, kind, dt, c)
         r0n = exact_norm_residual(Aent, bp, x0p)
         if r0n == 0.0:
             continue
         unit = rhs_unit(job, dt, bp, x0p, r0n)
-        allowed = RHS_C[dt]
+        allowed = SHIFT_C if kind == "shift" else RHS_C[dt]
         tol = _TOL[dt]
         for api in ("gmres", "inv"):
             prev = None
             for m in range(1, n + 3):
                 if only is not None and ((kind, dt, sn, api) != tuple(only[:4]) or m not in only[4]):
                     prev = None
+                    continue
+                if only is None and not full and (vi + m) % 2 != (api == "inv"):
+                    prev = None          # quick tier: the entry points alternate over (variant, m)
                     continue
                 if m == 1:
                     prev = 1.0
@@ -793,7 +808,7 @@ def rhs_batch_jobs(jobs):
     return [{"mat": k, "cols": (v if len(v) >= 2 else v * 2)} for k, v in by.items()]
 
 
-def observe_scaled_batch(mj, only=None):
+def observe_scaled_batch(mj, only=None, full=True):
     """A block of right-hand sides of very different sizes (O(1) next to tiny, both orders): every column relative to
     its own initial residual against its own TLC optimum."""
     cols = mj["cols"]
@@ -810,10 +825,12 @@ def observe_scaled_batch(mj, only=None):
                 fac = [(c if (j % 2 == 1) == (pattern == "tiny_last") else 1.0) for j in range(k)]
                 Bs = [_np(cj["b"])[:, 0] for cj in cols]
                 B = np.stack([(f * (b if cplx else b.real)).astype(npdt) for f, b in zip(fac, Bs)], 1)
-                for api in ("gmres", "inv"):
-                    for m in sorted({1, max(n - 1, 1), n, n + 2}):
+                for ai, api in enumerate(("gmres", "inv")):
+                    for mi, m in enumerate(sorted({1, max(n - 1, 1), n, n + 2})):
                         if only is not None and (dt, sn, pattern, api, m) != tuple(only):
                             continue
+                        if only is None and not full and (mi + (pattern == "tiny_first")) % 2 != ai:
+                            continue     # quick tier: the entry points alternate over (pattern, m)
                         n_eval += 1
                         case = f"{mj['mat']} [{k} columns x {fac}] {dt} m={m} {api}"
                         rp = {"rhs_batch": {"mat": mj["mat"], "cols": [dict(_core(cj), hom=True, cond=cj["cond"], anorm=cj["anorm"],
@@ -963,6 +980,15 @@ ASSUMPTIONS = [
     "a backward-stable solve of the Hessenberg least-squares problem with constants about 25 times the largest excess "
     "measured on the unchanged tree (10.1 / 0.62) and below the geometric mean of that and the excess of a normal-equations "
     "solve (>= 1e4 for cond >= 1e5); cond_2(A) is NumPy's (harness side)",
+    "scaled right-hand sides / tiny initial residuals (catalog cases flagged hom; TLC invariant ScaleShift: GmresOpt(A, -3 r0, 0) "
+    "= -3 (x_m - x0) with rho2 * 9 on the same Krylov prefix, i.e. homogeneity and shift invariance hold exactly on these "
+    "cases; their extension from the factor -3 to c = 1e-12 .. 1e-30 and 2^-36, 2^-40 is the linearity of the minimiser in r0): "
+    "the residual of cola's iterate for the floating-point right-hand side actually passed (c * r0 rounded once; exact for "
+    "the shifted variant) is evaluated in rational arithmetic and must satisfy ||b' - A x|| / ||r0'|| <= rho_m / ||r0|| + "
+    "C*eps*(cond_2(A) + (||A|| ||x0'|| + ||b'||) / ||r0'||) with C = 256 (float64 / complex128), 32 (float32), 8 (shifted "
+    "variant): 18 / 55 / 44 times the largest excess measured on the unchanged tree (13.8 / 0.58 / 0.18), which is the "
+    "same at c = 1 (13.3); a start vector that is not normalised exceeds it by a factor 1e12 (float64), 1e4 (float32), "
+    "75 (shifted variant); float32 scales stop at 1e-18 because (1e-20)^2 underflows in float32",
     "ill-conditioned numeric family (n <= 60, prescribed singular values, cond 1e4 .. 1e7 in float64, 1e2 .. 1e3 in float32, "
     "m >= n so that the exact minimal residual is 0): harness-side projection predicate, not TLC: "
     "||b - A x|| <= C*eps(dtype)*cond_2(A)*||r0|| with C = 16 (float64) / 5 (float32); ASSUMPTION: a GMRES whose small "
@@ -1027,6 +1053,10 @@ def _task(arg):
         r = observe_wide(x)
     elif kind == "wide_multi":
         r = observe_wide_multi(x)
+    elif kind == "rhs":
+        r = observe_scaled_rhs(x[0], full=x[1])
+    elif kind == "rhs_batch":
+        r = observe_scaled_batch(x[0], full=x[1])
     elif kind == "random":
         r = observe_random(x)
     elif kind == "illcond":
@@ -1070,14 +1100,18 @@ def run(tier):
         mjobs = multi_jobs(jobs)
         wm = wide_multi_jobs(wjobs)
         t1 = time.time()
+        hjobs = [j for j in jobs if j["hom"]]
+        hb = rhs_batch_jobs(jobs)
         futs += [ex.submit(_task, a) for a in ([("multi", j) for j in mjobs] + [("case", j) for j in jobs]
-                                               + [("wide", j) for j in wjobs] + [("wide_multi", j) for j in wm])]
+                                               + [("wide", j) for j in wjobs] + [("wide_multi", j) for j in wm]
+                                               + [("rhs", (j, tier != "quick")) for j in hjobs]
+                                               + [("rhs_batch", (j, tier != "quick")) for j in hb])]
         results = [f.result() for f in futs]
         phase["replay_after_tlc"] = round(time.time() - t1, 1)
-    n_eval = n_multi = n_wide = n_rand = n_skip = n_ill = 0
-    worst_scaled, worst_ill = {}, {}
-    # fixed reporting order: catalog, multi-column, scaled catalog, random systems, ill-conditioned family
-    order = {"case": 0, "multi": 1, "wide": 2, "wide_multi": 3, "random": 4, "illcond": 5}
+    n_eval = n_multi = n_wide = n_rand = n_skip = n_ill = n_rhs = 0
+    worst_scaled, worst_ill, worst_rhs = {}, {}, {}
+    # fixed reporting order: catalog, multi-column, scaled catalog, scaled right-hand sides, random systems, ill-conditioned
+    order = {"case": 0, "multi": 1, "wide": 2, "wide_multi": 3, "rhs": 4, "rhs_batch": 5, "random": 6, "illcond": 7}
     for kind, r, secs in sorted(results, key=lambda x: order[x[0]]):
         cpu[kind] = cpu.get(kind, 0.0) + secs
         viol += r[0]
@@ -1089,6 +1123,10 @@ def run(tier):
             n_wide += r[1]
             for dt, w in r[2].items():
                 worst_scaled[dt] = max(worst_scaled.get(dt, 0.0), w)
+        elif kind in ("rhs", "rhs_batch"):
+            n_rhs += r[1]
+            for dt, w in r[2].items():
+                worst_rhs[dt] = max(worst_rhs.get(dt, 0.0), w)
         elif kind == "random":
             n_rand += r[1]
             n_skip += r[2]
@@ -1104,7 +1142,7 @@ def run(tier):
     cov = {
         "states": stats["states"], "transitions": stats["transitions"],
         "traces_validated_against_impl": len(jobs) + len(wjobs),
-        "evaluations": n_eval + n_multi + n_rand + n_wide + n_ill, "catalog_calls": n_eval, "multi_column_calls": n_multi,
+        "evaluations": n_eval + n_multi + n_rand + n_wide + n_ill + n_rhs, "catalog_calls": n_eval, "multi_column_calls": n_multi,
         "random_system_calls": n_rand, "random_systems": len(specs), "random_columns_skipped_illconditioned": n_skip,
         "scaled_catalog_calls": n_wide, "scaled_catalog_systems": len(wjobs), "scaled_multi_column_batches": len(wm),
         "scaled_catalog_matrices": len({j["mat"] for j in wjobs}),
@@ -1112,6 +1150,10 @@ def run(tier):
         "scaled_tlc_states": sum(j["n"] + 4 for j in wjobs),
         "scaled_largest_excess_over_eps_cond": {k: round(v, 3) for k, v in sorted(worst_scaled.items())},
         "scaled_allowed_excess": SCALED_C,
+        "scaled_rhs_calls": n_rhs, "scaled_rhs_systems": len(hjobs), "scaled_rhs_batches": len(hb),
+        "scaled_rhs_scales": {k: [a for a, _ in v] for k, v in RHS_SCALES.items()}, "tiny_residual_scales": [a for a, _ in SHIFT_SCALES],
+        "scaled_rhs_largest_excess": {k: round(v, 3) for k, v in sorted(worst_rhs.items())},
+        "scaled_rhs_allowed": dict(RHS_C, shift=SHIFT_C), "tlc_scale_shift_cases": sum(1 for c in cases if c.get("hom")),
         "illcond_system_calls": n_ill, "illcond_systems": len(ispecs),
         "illcond_largest_residual_over_eps_cond": {k: round(v, 3) for k, v in sorted(worst_ill.items())},
         "illcond_allowed": ILLCOND_C,
@@ -1135,7 +1177,7 @@ def replay(path):
         ms = {r["m"] - 1, r["m"]} if r.get("monotone") else {r["m"]}
         res, _, _ = observe_wide(r["wide_job"], only=(r["dtype"], r["api"], ms - {0}))
         res = [x for x in res if x.attrs.get("m") == r["m"] and (x.clause == "monotone") == bool(r.get("monotone"))]
-    elif r.get("monotone"):
+    elif r.get("monotone") and "job" in r:
         job = dict(r["job"])
         job["per_m"] = r["recs"]
         ms = [r["m"]] if r["m"] == 1 else [r["m"] - 1, r["m"]]
@@ -1152,6 +1194,15 @@ def replay(path):
     elif "random" in r:
         res, _, _ = observe_random((r["random"], r.get("tier", "quick")))
         res = [x for x in res if x.attrs.get("m") == r["m"]]
+    elif "rhs_job" in r:
+        ms = {r["m"] - 1, r["m"]} if r.get("monotone") else {r["m"]}
+        job = dict(r["rhs_job"], hom=True, mat=r["rhs_job"]["id"].split("/")[0])
+        res, _, _ = observe_scaled_rhs(job, only=tuple(r["variant"]) + (r["api"], ms - {0}))
+        res = [x for x in res if x.attrs.get("m") == r["m"] and (x.clause == "monotone") == bool(r.get("monotone"))]
+    elif "rhs_batch" in r:
+        res, _, _ = observe_scaled_batch(r["rhs_batch"], only=tuple(r["only"]))
+        if "column" in r:
+            res = [x for x in res if x.attrs.get("column") == r["column"]]
     elif "wide_multi" in r:
         res, _, _ = observe_wide_multi(r["wide_multi"], only=(r["dtype"], r["api"], r["m"]))
         if "column" in r:
